@@ -129,6 +129,31 @@ func propC17Notation(c notationCase, o *hx.Obs) *hx.Failure {
 				return f
 			}
 		}
+		// a promotion suffix on a move that is no promotion / a promotion without its piece: SAN and UCI shaped
+		// strings that denote no legal move
+		plain := strings.TrimRight(rp.SAN(m, rc.SANOpt{NoCheck: true}), "+#")
+		if m.Kind != rc.Promotion && m.Kind != rc.Castling {
+			for _, suf := range []string{"=N", "=Q", "N", "=B", "R"} {
+				if f := trySAN(plain+suf, "promotion suffix on the non-promotion move "+m.UCI(true)); f != nil {
+					return f
+				}
+			}
+			for _, suf := range []string{"n", "q", "N"} {
+				if f := tryUCI(m.UCI(true) + suf); f != nil {
+					return f
+				}
+			}
+		}
+		if m.Kind == rc.Promotion {
+			if i := strings.IndexByte(plain, '='); i > 0 {
+				if f := trySAN(plain[:i], "promotion piece dropped from "+m.UCI(true)); f != nil {
+					return f
+				}
+			}
+			if f := tryUCI(m.UCI(true)[:4]); f != nil {
+				return f
+			}
+		}
 		if !mg.ValidateMove(ep, em) {
 			return hx.Failf("C17/validate/rejects-legal", "%s: ValidateMove(%s)=false for a legal move", c.Fen, m.UCI(true))
 		}
